@@ -161,6 +161,43 @@ def run_shard(sh, spec):
         if s.form != "plain" and len(sh.samples) < 3:
             sh.sample({"identifier": s.text, "reads_as": [list(s.prefix), s.unit], "displayed": r.get("val_text")})
 
+    # 2b. several prefixes of one unit in ONE input (all statements of an input are compiled before any runs, so tables
+    #     built at compile time — prefixes, constants — are shared by everything in the input): every element of
+    #     `[1 kU -> U, 1 MiU -> U, ...]` must be its own prefix factor
+    by_unit = {}
+    for s in mine_acc:
+        if single_token(s.text) and not is_f11(s):
+            by_unit.setdefault(s.unit, []).append(s)
+    for unit, sps in sorted(by_unit.items()):
+        plain = next((x for x in acc if x.unit == unit and x.form == "plain" and single_token(x.text)), None)
+        if plain is None:
+            continue
+        for start in range(0, len(sps), 24):
+            group = sps[start:start + 24]
+            if len(group) < 2:
+                continue
+            code = "[" + ", ".join(f"(1 {x.text} -> {plain.text})" for x in group) + "]"
+            try:
+                r = es.eval(code)
+            except (WorkerDied, WorkerTimeout) as e:
+                sh.violation({"code": code[:300]}, f"interpreter crashed/hung on a list of prefixed units: {e}")
+                w.restart()
+                es.reset()
+                continue
+            sh.judged()
+            sh.count("multi_prefix_inputs")
+            if not r.get("ok") or (r.get("value") or {}).get("t") != "list":
+                sh.violation({"code": code[:400]}, f"`{code[:200]}…` fails: {r.get('msg') or r.get('panic')}")
+                continue
+            for x, item in zip(group, r["value"]["items"]):
+                want = prefix_factor(x.prefix)
+                got = qval(item) if item.get("t") == "q" else None
+                if got is None or not rel_close(exact(got), want):
+                    sh.violation({"identifier": x.text, "code": code[:400], "signature": "multi-prefix input"},
+                                 f"in one input with other prefixed forms of {unit}, `1 {x.text} -> {plain.text}` is {got!r}, "
+                                 f"the prefix factor is {float(want)!r}")
+                    break
+
     # 3. definition-time guard: an identifier of the table cannot be defined again
     rng = rng_for(spec["seed"], "C13", idx)
     sample = rng.sample(mine_acc, min(len(mine_acc), 60 if spec["tier"] == "quick" else 400))
